@@ -417,6 +417,56 @@ F42_FORM = {"survey": [{"type": "text", "name": "q", "label": "Q"}],
             "choices": [{"list_name": "a\tb", "name": "x", "label": "X"}, {"list_name": "a b", "name": "y", "label": "Y"}]}
 
 
+def inline_query_forms(rng):
+    """search() selects over every label shape (plain, some / all labels missing, translated, media, dynamic `${}`
+    label) and list sizes 1 / 3 / 12 (two-digit itext index), and select_one_external rows whose filter carries
+    a `${}` reference from the top level, a group and a repeat: the in-line items and the `query` the theorems
+    `inline_items` / `external_query` are about, compared item by item with the implementation."""
+    out = []
+    q = {"type": "text", "name": "q", "label": "Q"}
+    for shape in ("plain", "sparse", "nolabel", "translated", "media", "dynamic", "extras"):
+        for n in (1, 3, 12):
+            ch = []
+            for i in range(n):
+                r = {"list_name": "fr", "name": f"c{i}"}
+                if shape in ("plain", "media", "extras") or (shape == "sparse" and i % 2 == 0):
+                    r["label"] = rng.choice(["A", "b c", "x  y", "1", "it's"]) + str(i)
+                if shape == "translated":
+                    r["label::English (en)"] = f"E{i}"
+                    if i % 2 == 0:
+                        r["label::French (fr)"] = f"F{i}"
+                if shape == "media" and i == n - 1:
+                    r["media::image"] = "a.png"
+                if shape == "dynamic":
+                    r["label"] = f"L{i} ${{q}}" if i == n // 2 else f"L{i}"
+                if shape == "extras":
+                    r["geo"] = str(i)
+                ch.append(r)
+            other = [{"list_name": "zz", "name": "z", "label": "Z"}]
+            rows = other + ch if rng.random() < 0.5 else ch + other
+            cmd = rng.choice(["select_one", "select_multiple"])
+            app = rng.choice(["search('fruits')", "minimal search('fruits')", "search('fruits', 'contains', 'name', ${q})"])
+            sel = {"type": f"{cmd} fr", "name": "s", "label": "S", "appearance": app}
+            survey = [q, sel, {"type": "select_one zz", "name": "u", "label": "U"}]
+            if rng.random() < 0.5:
+                survey = [q, {"type": "begin group", "name": "g", "label": "G"}, sel, {"type": "end group"}, survey[-1]]
+            out.append({"survey": survey, "choices": rows})
+    ext_cols = ["list_name", "name", "label", "a", "b"]
+    for ln in ("towns", "t_2", "a.b"):
+        ext = [{"list_name": ln, "name": "n0", "label": "N", "a": "1", "b": "x"},
+               {"list_name": "rest", "name": "n1", "label": "M", "a": "2", "b": "y"}]
+        for cf in ("a=${q}", "a = ${q} and b=${p}", "b='x'", "a=${q} or selected(${p}, b)"):
+            sel = {"type": f"select_one_external {ln}", "name": "s", "label": "S", "choice_filter": cf}
+            base = [q, {"type": "text", "name": "p", "label": "P"}]
+            out.append({"survey": base + [sel], "external_choices": ext, "external_choices_cols": ext_cols})
+            out.append({"survey": base + [{"type": "begin group", "name": "g", "label": "G"}, sel, {"type": "end group"}],
+                        "external_choices": ext, "external_choices_cols": ext_cols})
+            out.append({"survey": [q, {"type": "begin repeat", "name": "r", "label": "R"}, {"type": "text", "name": "p", "label": "P"},
+                                   sel, {"type": "end repeat"}],
+                        "external_choices": ext, "external_choices_cols": ext_cols})
+    return out
+
+
 def directed(ctx):
     """Seed-independent cases: one per open finding, the last-saved positions in isolation, mixed-case parameters."""
     form_case(ctx, copy.deepcopy(F41_FORM))
@@ -427,6 +477,9 @@ def directed(ctx):
         form_case(ctx, f)
     for f in param_case_forms(ctx.rng):
         ctx.count("directed:parameter-case")
+        form_case(ctx, f)
+    for f in inline_query_forms(ctx.rng):
+        ctx.count("directed:inline-items" if "choices" in f else "directed:external-query")
         form_case(ctx, f)
 
 
